@@ -129,6 +129,10 @@ func DecryptMessage(ctx context.Context, ct []byte, keySource X25519KeyProducer,
 	return nil
 }
 
+// aeadNonceSize is the size of the AES-GCM nonce that the AEAD wrapper
+// prepends to every ciphertext it produces
+const aeadNonceSize = 12
+
 func decryptWithKey(ctx context.Context, keyId string, ct []byte, sharedKey []byte, result proto.Message) error {
 	const op = "nodeenrollment.decryptWithKey"
 
@@ -144,6 +148,13 @@ func decryptWithKey(ctx context.Context, keyId string, ct []byte, sharedKey []by
 	blobInfo := new(wrapping.BlobInfo)
 	if err := proto.Unmarshal(ct, blobInfo); err != nil {
 		return fmt.Errorf("(%s) error unmarshaling incoming blob info: %w", op, err)
+	}
+
+	// The AEAD wrapper slices the nonce off the front of the ciphertext
+	// without checking its length, so reject anything that cannot even hold
+	// the nonce instead of panicking on attacker-supplied input.
+	if len(blobInfo.Ciphertext) < aeadNonceSize {
+		return fmt.Errorf("(%s) ciphertext is too short", op)
 	}
 
 	var aadOpt wrapping.Option
